@@ -265,6 +265,12 @@ def run(chk: Check, eng: Engine) -> None:
             chk.bad("R11-c", eng.relfile(m), m.line, m.fq, f"{c.name}.__copy__ does not build a new object", "copy() on a memo hit returns the entry itself", keyparts=f"copy-identity|{c.name}")
 
 
+    chk.rule("R11-h", "memoised fitness() methods read no module-level state that is re-bound during a run", floor=5)
+    from . import common_fitness as _cfp
+    _cfp.memo_purity_rule(chk, eng, "R11-h")
+    chk.rule("R11-i", "the hash of every symbol class carries the symbol kind (tree hashes - the identity all caches rely on - are built from hash(symbol))", floor=2)
+    from .c10 import symbol_hash_rule
+    symbol_hash_rule(chk, eng, "R11-i")
     chk.rule("R11-g", "quantifiers write their bound variable only into dictionaries they own (copies made in the same call)", floor=4)
     from . import common_fitness as _cfo
     _cfo.owned_binding_rule(chk, eng, "R11-g")
